@@ -165,6 +165,21 @@ def gen_hostile(rnd, quick):
         else:
             data = prog(d, [(10, [rnd.getrandbits(8) or 1 for _ in range(rnd.randint(0, 30))])])
         yield ("hostile-%d" % i, d, rnd.randrange(8), data)
+    # quantities that accumulate over the whole program rather than one line: loop depth (indentation is 2 columns per open loop and
+    # has no bound), long runs of outdents, the longest lines, many lines
+    tabs = tables()
+    for d in ("6502", "Z80", "ARM", "Windows", "PDP11"):
+        tab = tabs[CANON.get(d, d)]
+        kF, kN, kR, kU = (kwbyte(tab, k) for k in ("FOR", "NEXT", "REPEAT", "UNTIL"))
+        deep = {"for-200-lines": [(i + 1, [kF, 73]) for i in range(200)] + [(300, [0xF1, 65])],
+                "for-40-per-line": [(i + 1, [kF] * 40) for i in range(8)] + [(300, [0xF1, 65])],
+                "repeat-250-per-line": [(i + 1, [kR] * 250) for i in range(2)] + [(300, [0xF1, 65])],
+                "next-250-per-line": [(i + 1, [kN] * 250) for i in range(2)] + [(300, [0xF1, 65])],
+                "up-and-down": [(i + 1, [kF] * 100) for i in range(2)] + [(100 + i, [kN] * 120) for i in range(2)] + [(300, [kU] * 250)],
+                "many-lines": [(i % 65280, [0xF1]) for i in range(400)]}
+        for name, lines in deep.items():
+            for listo in ((7, 0, 2, 4) if not quick else (7, 2)):
+                yield ("hostile-deep-%s" % name, d, listo, prog(d, lines))
 
 
 # ------------------------------------------------------------------ running
